@@ -12,6 +12,8 @@ for p in (home, repo):
     if p and p not in sys.path:
         sys.path.insert(0, p)
 sys.path[:] = [p for p in sys.path if os.path.abspath(p or ".") != os.path.dirname(os.path.abspath(__file__))]
+if os.environ.get("VF_UMASK"):
+    os.umask(int(os.environ["VF_UMASK"], 8))     # the file-creation mask of the account / service unit the server runs under
 if os.environ.get("XANDIKOS_VERIF") == "1":
     from vf import agent
     agent.install_from_env()
